@@ -62,6 +62,21 @@ async def async_work(x):
     return ('f', token, True)
 
 
+class Unpicklable:
+    """A value that travels fine between threads and fails, deterministically, at the first process boundary."""
+
+    def __reduce__(self):
+        import pickle
+
+        raise pickle.PicklingError('vf-unpicklable')
+
+    def __repr__(self):
+        return 'Unpicklable()'
+
+
+UNPICKLABLE = Unpicklable()
+
+
 def ident(x):
     return x
 
